@@ -182,7 +182,22 @@ def rule_pinned_ends(db, chk, cfg, rule="END.pinned"):
             continue
         # the pins
         txt = canon(f.body)
-        pins = "(distSqr[0] = MAX_DBL)" in txt and "(distSqr[high] = MAX_DBL)" in txt
+        pinned = set()
+        for x in walk(f.body):
+            l = r = None
+            if x.get("kind") == "BinaryOperator" and x.get("opcode") == "=":
+                l, r = kids(x)
+            elif x.get("kind") == "CXXOperatorCallExpr" and len(kids(x)) == 3 and _u(kids(x)[0]).get("referencedDecl", {}).get("name") == "operator=":
+                l, r = kids(x)[1], kids(x)[2]
+            if l is None:
+                continue
+            # a chained assignment a = b = MAX_DBL pins both
+            rr = _u(r)
+            while rr.get("kind") == "BinaryOperator" and rr.get("opcode") == "=":
+                rr = _u(kids(rr)[1])
+            if canon(rr) in ("MAX_DBL", "numeric_limits<double>::max()", "max()") and canon(l) in ("distSqr[0]", "distSqr[high]"):
+                pinned.add(canon(l))
+        pins = pinned == {"distSqr[0]", "distSqr[high]"}
         n += 1
         chk.instance(rule, {"function": f.qual, "sig": f.sig[:50], "obligation": "open paths pin distSqr[0] and distSqr[high] to MAX_DBL", "cfg": cfg}, ok=pins)
         if not pins:
